@@ -368,26 +368,38 @@ def check_registry(prog, ctx):
             ctx.check(a in c.methods, rid, (c.file, c.name), c.node, f"missing {a}",
                       f"{c.name} defines abstract method {a}")
     gs = prog.func("symmray.symmetries:get_symmetry")
-    chain = {}
-    for n in walk_own(gs.node):
-        if isinstance(n, ast.If) and isinstance(n.test, ast.Compare):
-            t = n.test
-            if (
-                isinstance(t.left, ast.Name) and len(t.ops) == 1 and isinstance(t.ops[0], ast.Eq)
-                and isinstance(t.comparators[0], ast.Constant)
-                and n.body and isinstance(n.body[0], ast.Return)
-                and isinstance(n.body[0].value, ast.Call)
-            ):
-                chain[t.comparators[0].value] = (src(n.body[0].value.func), n)
-    ctx.need(chain, "get_symmetry: no `symmetry == \"X\"` chain found")
-    for name, (ctor, node) in chain.items():
-        tgt = prog.resolve_name(mod, ctor)
-        ok = isinstance(tgt, ClassInfo) and tgt.name == name and base in prog.mro(tgt)
-        ctx.check(ok, rid, gs, node, f"{name!r} -> {ctor}()",
-                  f"get_symmetry({name!r}) constructs class {ctor} (must be the Symmetry subclass named {name})")
+    # the registry is evaluated, not pattern-matched: get_symmetry(<class name>) must build an instance of that class
+    ev = Evaluator(prog)
     for c in subs:
-        ctx.check(c.name in chain, rid, gs, gs.node, f"class {c.name} unreachable",
-                  f"Symmetry subclass {c.name} is reachable by name through get_symmetry")
+        try:
+            ev.steps = 0
+            got = ev.call(gs, [c.name])
+            ok = isinstance(got, Obj) and got.cls is c
+            why = f"returned {getattr(getattr(got, 'cls', None), 'name', got)}"
+        except Raised as e:
+            ok, why = False, f"raised {e.what[:60]}"
+        except Unsupported as e:
+            raise AnalysisError(f"get_symmetry outside the evaluable sub-language: {e}")
+        ctx.check(ok, rid, gs, gs.node, f"{c.name!r} -> {why}", f"get_symmetry({c.name!r}) constructs the Symmetry subclass named {c.name}")
+    try:
+        ev.steps = 0
+        ok = True
+        for c in subs:
+            ev.steps = 0
+            got = ev.call(gs, [Obj(c, {})])
+            ok = ok and isinstance(got, Obj) and got.cls is c
+    except (Raised, Unsupported, TypeError):
+        ok = False
+    ctx.check(ok, rid, gs, gs.node, "instance passthrough", "a Symmetry instance resolves to an instance of its own class")
+    try:
+        ev.steps = 0
+        ev.call(gs, ["NoSuchSymmetry"])
+        ok = False
+    except Raised:
+        ok = True
+    except Unsupported as e:
+        raise AnalysisError(f"get_symmetry outside the evaluable sub-language: {e}")
+    ctx.check(ok, rid, gs, gs.node, "unknown name", "an unknown symmetry name raises")
     # Symmetry.__eq__ compares class names with strings: names are the contract
     eq = base.methods.get("__eq__")
     ctx.need(eq is not None, "Symmetry.__eq__ vanished")
